@@ -267,7 +267,13 @@ func ruleReadAPI(w *World, r *Run) {
 	// ---- C16.c CLIENT-MAPPING
 	if sums, e, ok := explore(w, r, "C16.c", fnCGetLatest, 4, 1); ok {
 		n404, nOK := 0, 0
+		clientRecv := recvParam(w.fn(fnCGetLatest))
 		for _, s := range sums {
+			for _, ev := range eventsOfKind(s, "store", "mapupdate") {
+				if ev.Recv != nil && mentions(ev.Recv, clientRecv) {
+					r.Fail("C16.c", fnCGetLatest+" | the client does not modify its shared state", w.pos(ev.Pos), "the client writes through its receiver ("+short(ev.Recv.String())+"): clients are shared between goroutines fetching different logs, so one request's URL can be rewritten by another and a fetch can return another log's checkpoint")
+				}
+			}
 			if len(s.Rets) != 2 {
 				continue
 			}
